@@ -201,6 +201,13 @@ def run(ck):
                 gq = (t.get(side) or {}).get("g") or ""
                 if gq.endswith("::Id"):
                     cmp_ids.add(gq.rsplit("::", 1)[0])
+        # `switch (step()->id()) { case X::Id: ... }`: the case labels are the comparisons
+        for b in g_.blocks.values():
+            lab = b.label or {}
+            lt = re.sub(r"\s+", "", lab.get("t") or "")
+            if lab.get("k") == "case" and lt.endswith("::Id"):
+                sid_ = lt[:-4]
+                cmp_ids.add(sid_ if sid_.startswith("Pistache") else H + "Private::" + sid_.split("::")[-1])
     # table-driven scan: a local table whose rows are {<Step>::Id, <local predicate>}; the ids count as compared against, and each
     # row's predicate is a decision of its own
     table_rows = []
@@ -261,6 +268,23 @@ def run(ck):
         if guarded_by_body_timeout(cip, e):
             ndec += 1
             continue
+        # guarded by a bool local that collects the verdict (`bool idle = false; switch (...) { case ..: idle = elapsed > ..; }`): every
+        # assignment of a non-constant value to it is a decision
+        accs = set()
+        for b in cip.blocks.values():
+            t_ = b.term or {}
+            v_ = (t_.get("core") or {}).get("v")
+            if v_ and not t_.get("cmp") and len(b.succs) == 2 and cfg.edge_dominates(cip, b.id, 1 if t_.get("neg") else 0, e):
+                d_ = [x for x in cip.events("decl") if x.get("var") == v_ and (x.get("type") or "").replace("const ", "") == "bool"]
+                if d_:
+                    accs.add(v_)
+        if accs:
+            for a_ in [x for x in cip.events(("assign", "decl")) if ((x.get("lhs") or {}).get("v") in accs or (x["k"] == "decl" and x.get("var") in accs)) and not isinstance(x.get("const"), bool)]:
+                ndec += 1
+                if not (any(BT == x_ for x_ in (a_.get("refs") or [])) or guarded_by_body_timeout(cip, a_)):
+                    body_ok = False
+                refs_all |= set(a_.get("refs") or [])
+            continue
         if table_rows:
             continue
         # guarded by a predicate helper: its non-false returns are the decisions
@@ -307,7 +331,17 @@ def run(ck):
     for t in thens:
         lams = [a.get("lam") for a in t.get("args", []) if a.get("lam")]
         bodies = [lf for l in lams for lf in prog.lambda_by_id(l, cip)]
-        if len(bodies) >= 2 and all(any((c.get("callee") or "") == "Pistache::Tcp::Transport::handlePeerDisconnection" for c in lf.events("call")) for lf in bodies):
+        def releases(lf, depth=3):
+            """the continuation releases the peer: itself, or through a closure / private helper it calls"""
+            for c in lf.events("call"):
+                if (c.get("callee") or "") == "Pistache::Tcp::Transport::handlePeerDisconnection":
+                    return True
+                if depth > 0:
+                    for g_ in (prog.by_name.get(c.get("callee") or "") or []):
+                        if (g_.is_lambda or g_.cls == cip.cls) and releases(g_, depth - 1):
+                            return True
+            return False
+        if len(bodies) >= 2 and all(releases(lf) for lf in bodies):
             rel_ok = True
     ck.ob("C14-R5", "checkIdlePeers/408-then-release", bool(sends) and rel_ok, sends[0].loc if sends else cip.loc, cip,
           "send(Request_Timeout).then(release, release) for every idle peer")
